@@ -787,8 +787,9 @@ class Representation:
                 subrep._set_generator(
                     self.invert_gen(g),
                     self._word_value(
-                        utils.words.formal_inverse(
-                            word, inverse_map=self.invert_gen)
+                        [self.invert_gen(gen)
+                         for gen in self.parse_word(word)[::-1]],
+                        parse_simple=True
                     )
                 )
 
@@ -869,7 +870,7 @@ class Representation:
         else:
             product_rep = Representation()
             for gen in self.asym_gens():
-                tens = np.tensordot(self[gen], rep[gen], axes=0)
+                tens = np.tensordot(self.generators[gen], rep.generators[gen], axes=0)
                 elt = np.concatenate(np.concatenate(tens, axis=1), axis=1)
                 product_rep[gen] = np.array(elt)
             return product_rep
